@@ -30,13 +30,25 @@ GROUPS = {
     'inl': Group('inl', filt_inl, cpp=['props/C17/wrappers.cpp'], c=['props/C17/contracts.c'], cxx_defines=['__AVX512__']),
     'mul': Group('mul', filt_mul, cpp=['props/C17/wrappers.cpp', 'props/C17/forwarders.cpp'], c=['props/C17/contracts.c'], defines=['VF_MULUNITS'], cxx_defines=['__AVX512__']),
 }
-for _p in (1, 2):
-    GROUPS['inl_p%d' % _p] = Group('inl_p%d' % _p, filt_inl, cpp=['props/C17/wrappers.cpp'], c=['props/C17/contracts.c'], defines=['VF_IDXPAT=%d' % _p], cxx_defines=['__AVX512__'])
-    GROUPS['mul_p%d' % _p] = Group('mul_p%d' % _p, filt_mul, cpp=['props/C17/wrappers.cpp', 'props/C17/forwarders.cpp'], c=['props/C17/contracts.c'], defines=['VF_MULUNITS', 'VF_IDXPAT=%d' % _p], cxx_defines=['__AVX512__'])
+for _p in (1, 2, 3, 4):
+    GROUPS['inl_s%d' % _p] = Group('inl_s%d' % _p, filt_inl, cpp=['props/C17/wrappers.cpp'], c=['props/C17/contracts.c'], defines=['VF_SHAPE=%d' % _p], cxx_defines=['__AVX512__'])
+    GROUPS['mul_s%d' % _p] = Group('mul_s%d' % _p, filt_mul, cpp=['props/C17/wrappers.cpp', 'props/C17/forwarders.cpp'], c=['props/C17/contracts.c'], defines=['VF_MULUNITS', 'VF_SHAPE=%d' % _p], cxx_defines=['__AVX512__'])
+from vf import cify as _cify
+DIVRULE = (r'\(size \+ num_threads_copy - 1\) / num_threads_copy', 'vf_udiv(size + num_threads_copy - 1, num_threads_copy)')
+def filt_par(repo_src, dst):
+    f = extract.Filter(repo_src, dst)
+    f.check_macros()
+    txt = _cify.cify(f, 'goldilocks_base_field.cpp', 'Goldilocks::parcpy', 'Goldilocks_parcpy', [], {0: 'LOOP_CONTRACT_PAR'}, extra_rules=[(r'\bElement\b', 'GElement'), DIVRULE])
+    txt += _cify.cify(f, 'goldilocks_base_field.cpp', 'Goldilocks::parSetZero', 'Goldilocks_parSetZero', [], {0: 'LOOP_CONTRACT_PAR'}, extra_rules=[(r'\bElement\b', 'GElement'), DIVRULE])
+    if txt.count('vf_udiv(') != 2:
+        raise extract.ExtractError('M2-div: the division (size + num_threads_copy - 1) / num_threads_copy was not found exactly once in parcpy and parSetZero')
+    f.files = {'gen_par.c': txt}
+    return f
+GROUPS['par'] = Group('par', filt_par, c=['props/C17/contracts_par.c'], repo_cpp=[])
 H = 'src/goldilocks_base_field.hpp'
 _seed = int(os.environ.get('VERIF_SEED', '0') or 0)
 _rng = random.Random(_seed)
-_quick = set(_rng.sample(range(len(TABLE)), 48))
+_quick = set(_rng.sample(range(len(TABLE)), 24))
 UNITS = []
 for i, t in enumerate(TABLE):
     mul = t['op'] == 'mul'
@@ -44,15 +56,25 @@ for i, t in enumerate(TABLE):
     common = dict(replace=(['w_mul_v', 'k_mult_avx', 'k_mult_avx512'] if mul else []), tier='quick' if i in _quick else 'thorough',
                   flags=['--unwind', '9', '--unwinding-assertions'], loops='unwind 9 (constant trip counts 4 / 8)',
                   functions=['Goldilocks::%s(%s) (%s)' % (t['name'], ', '.join(t['params']), H)], timeout=600)
-    if t.get('has_idx'):
-        for _p in (1, 2):
-            UNITS.append(Unit('%s@idxpat%d' % (t['uid'], _p), '%s_p%d' % (g, _p), t['uid'], bounded='index lists fixed to concrete pattern %d of 2 (all operand values, all strides symbolic)' % _p, **common))
+    if t.get('has_idx') or t.get('has_stride'):
+        # quick: shapes 1 and 3 ; thorough: all four concrete shapes, plus the fully symbolic unit for the stride-only overloads
+        for _p in (1, 2, 3, 4):
+            c2 = dict(common); c2['tier'] = common['tier'] if _p in (1, 3) else 'thorough'; c2['timeout'] = 300
+            UNITS.append(Unit('%s@shape%d' % (t['uid'], _p), '%s_s%d' % (g, _p), t['uid'], bounded='strides / index lists fixed to concrete shape %d of 4 (all operand values symbolic)' % _p, **c2))
+        if not t.get('has_idx'):
+            c3 = dict(common); c3['tier'] = 'thorough'; c3['timeout'] = 900
+            UNITS.append(Unit(t['uid'], g, t['uid'], note='fully symbolic strides (<= 2^20)', **c3))
     else:
         UNITS.append(Unit(t['uid'], g, t['uid'], **common))
+CHKP = ['--bounds-check', '--pointer-check', '--undefined-shift-check', '--signed-overflow-check', '--div-by-zero-check']
+for _n in ('parcpy', 'parSetZero'):
+    UNITS.append(Unit(_n, 'par', 'Goldilocks_' + _n, harness='hl_' + _n, light=True, loops='contract', checks=CHKP, timeout=900,
+                      functions=['Goldilocks::%s (src/goldilocks_base_field.cpp) [C-ified, loop contract, ghost monitor of the chunk copies; all size <= 2^61, all int thread counts]' % _n]))
 TRUSTED_BASE = ['the reading of each declaration (result first, stride / index list attached by parameter name) - validated by the proofs: a wrong reading fails on the unchanged tree',
                 'caller-facing contracts of mul / mult_avx / mult_avx512 over the uninterpreted field product (C01, C02, C11)', 'L0 intrinsic table; CBMC C++ front end, dfcc, cadical']
 ASSUMPTIONS = ['strides and index entries <= 2^20', 'result array disjoint from operand arrays; result positions pairwise distinct (stride_dst >= 1, distinct output indices)']
-EXPLANATION = 'quick tier: a seeded sample of 48 of the %d overloads (VERIF_SEED); thorough tier: all of them.' % len(TABLE)
+EXPLANATION = ('quick tier: a seeded sample of 24 of the %d overloads (VERIF_SEED); thorough tier: all of them.  Overloads without stride / index-list parameters are proved outright; '
+               'overloads with them are proved for all operand values on four concrete stride / index shapes (bounded in that dimension, listed under coverage.bounded) and, in the thorough tier, with fully symbolic strides.' % len(TABLE))
 MANIFEST_ENTRY = dict(category='proof', technique='generated CBMC code contracts (one per overload, from the header declarations) with exact-extent operands and exact assigns sets',
     text='%d overloads of copy/add/sub/mul in the batch, AVX2 and AVX-512 helper families: lane k = op(k-th designated operands), frames exact, operands allocated at exactly the designated extent; all operand values, strides and index lists up to 2^20.' % len(TABLE),
-    note='quick tier proves a seeded sample of 48 overloads, thorough all; parcpy/parSetZero: see evidence; aliasing of result and operands not covered.')
+    note='quick tier: seeded sample of 24 overloads; strides / index lists: concrete shapes {1, 3, 0/2, 65537; reversed, spread, constant} (bounded) + symbolic strides in the thorough tier; aliasing of result and operands not covered.')
